@@ -335,7 +335,17 @@ impl Check for C11 {
                         for sx in [IDENT, [1., 0., 0., 1., 2., -1.], [1., 0., 0., 1., 0.5, 0.25]] {
                             for alpha in [1.0f32, 0.5] {
                                 let src = SrcSpec::Image { w: iw, h: ih, data: data.clone(), repeat, bilinear, xf: sx };
-                                let scene = Scene { w: S, h: S, dst: Dst::White, ops: vec![Op::SetTransform(t), Op::Fill(big.clone(), src, Opts { mode: BlendMode::Src, alpha, aa: true })] };
+                                // directly, and after calls that must leave the transform (and
+                                // everything derived from it) as they found it
+                                for pre in 0..3 {
+                                let mut ops = vec![Op::SetTransform(t)];
+                                match pre {
+                                    1 => ops.extend([Op::PushLayer(1.0, BlendMode::SrcOver), Op::PopLayer]),
+                                    2 => ops.extend([Op::PushClipRect(0, 0, S, S), Op::Clear(0xffffffff), Op::PopClip]),
+                                    _ => {}
+                                }
+                                ops.push(Op::Fill(big.clone(), src.clone(), Opts { mode: BlendMode::Src, alpha, aa: true }));
+                                let scene = Scene { w: S, h: S, dst: Dst::White, ops };
                                 l.states += 1;
                                 l.transitions += 2;
                                 l.traces += 1;
@@ -350,6 +360,7 @@ impl Check for C11 {
                                         run.report(6000 + ti, v)
                                     }
                                 }
+                                }
                             }
                         }
                     }
@@ -362,8 +373,15 @@ impl Check for C11 {
                 SrcSpec::TwoCircle { stops: ramp2.clone(), spread: Spr::Pad, p: [4., 4., 1., 4.5, 4., 5.] },
                 SrcSpec::Sweep { stops: ramp2.clone(), spread: Spr::Repeat, p: [4., 4., 0., 360.] },
             ] {
-                for alpha in [1.0f32, 0.5] {
-                    let scene = Scene { w: 24, h: 24, dst: Dst::White, ops: vec![Op::SetTransform(t), Op::Fill(big.clone(), src.clone(), Opts { mode: BlendMode::Src, alpha, aa: true })] };
+                for (alpha, pre) in [(1.0f32, 0), (0.5, 0), (1.0, 1), (1.0, 2)] {
+                    let mut ops = vec![Op::SetTransform(t)];
+                    match pre {
+                        1 => ops.extend([Op::PushLayer(0.5, BlendMode::SrcOver), Op::PopLayer]),
+                        2 => ops.extend([Op::PushLayer(1.0, BlendMode::SrcOver), Op::Clear(0), Op::PopLayer]),
+                        _ => {}
+                    }
+                    ops.push(Op::Fill(big.clone(), src.clone(), Opts { mode: BlendMode::Src, alpha, aa: true }));
+                    let scene = Scene { w: 24, h: 24, dst: Dst::White, ops };
                     l.states += 1;
                     l.transitions += 2;
                     l.traces += 1;
@@ -431,13 +449,18 @@ impl Check for C11 {
                     _ => {}
                 }
             }
-            let src_kind = scene.ops.iter().find_map(|o| if let Op::Fill(_, s, _) = o { Some(s.clone()) } else { None });
+            // source clauses: the scene ends in a fill with an image / gradient source
+            let src_kind = match scene.ops.last() {
+                Some(Op::Fill(_, s, _)) => Some(s.clone()),
+                _ => None,
+            };
+            let _ = scene.ops.len();
             match src_kind {
-                Some(SrcSpec::Image { .. }) if scene.ops.len() == 2 => Ok(super::c13::eval(&scene).err().map(|mut v| {
+                Some(SrcSpec::Image { .. }) => Ok(super::c13::eval(&scene).err().map(|mut v| {
                     v.sig = format!("source-in-user-space/{}", v.sig);
                     v
                 })),
-                Some(s) if s.is_gradient() && scene.ops.len() == 2 => Ok(super::c12::eval(&scene).err().map(|mut v| {
+                Some(s) if s.is_gradient() => Ok(super::c12::eval(&scene).err().map(|mut v| {
                     v.sig = format!("source-in-user-space/{}", v.sig);
                     v
                 })),
